@@ -131,6 +131,8 @@ PROPS = {
             "obs": None, "exhaustive_note": "quick: capacity-1/capacity/capacity+1 for every (level, mode) of versions 1-10 and a rotating pair for 11-40; thorough: all 160 x 3 x 3 boundary cases"},
     "C02": {"claim": "Model of the datamatrix package (encodation, padding, size choice, block interleave + RS, placement with both wrap rules, corner cases and panics, region merge) tied by correspondence on every size and capacity boundary; judged by a reference decoder written from ISO/IEC 16022 (attribute table, finder/clock tracks, Annex F placement pseudo-code, RS validity by evaluation, ASCII decodation with 253-state pads).",
             "obs": None, "exhaustive_note": "all 24 sizes at capacity-1/capacity/capacity+1 in several content classes"},
+    "C03": {"claim": "Model of the aztec package (high-level encoder with its state search, token lists, bit stuffing, layer choice, mode message, check words over five fields, data spiral, bullseye, reference grid) tied by correspondence over all 36 shapes, all 37 layer requests, percentages and capacity boundaries; judged by a reference decoder written from ISO/IEC 24778 (bullseye/orientation, mode message RS over GF(16), reference grid, domino spiral read, RS validity by evaluation, un-stuffing, character stream incl. binary shift). The empty payload is an open known finding.",
+            "obs": None, "exhaustive_note": "all 36 symbol shapes and all 37 layer requests; capacity-1/capacity/capacity+1 for every (percentage, layers) group"},
     "C04": {"claim": "Model of the pdf417 package (text/byte/numeric compaction state machines, dimensions, RS LFSR, row indicators, rendering) tied by correspondence incl. every total codeword count 3..905; judged by a reference decoder written from ISO/IEC 15438 (start/stop, cluster rule, indicators, RS validity over GF(929) by evaluation, compaction modes). The 3x929 pattern order is a frozen snapshot (DESIGN 1.1).",
             "obs": None, "exhaustive_note": "every total codeword count 3..905, i.e. all 104 reachable (rows, cols) shapes"},
     "C05": {"claim": 'Model of code128/encode.go (Lean; tables regenerated from /repo each run) tied to the code by correspondence (exhaustive for lengths 1-2 over the 132-symbol alphabet, structured random beyond) and judged by a reference decoder written from ISO/IEC 15417 in element-width form.', "obs": None, "exhaustive_note": "all strings of length 1..2 over the 132-symbol alphabet, both checksum variants"},
